@@ -62,6 +62,9 @@ MOD_ITEMS = {
     "extern":   dict(src="pub extern \"C\" fn a{n}(deps: %s) -> u32 {{ {n} }}" % ANY, member=True, call="sync"),
     "attrpub": dict(src="#[inline] /** doc */ pub fn a{n}(deps: %s) -> u32 {{ {n} }}" % ANY, member=True, call="sync"),
     "asyncunsafe": dict(src="pub(crate) async unsafe fn a{n}(deps: %s) -> u32 {{ {n} }}" % ANY, member=True, call="asyncunsafe"),
+    # `extern` without an ABI string (the C ABI implied)
+    "externbare": dict(src="pub extern fn a{n}(deps: %s) -> u32 {{ {n} }}" % ANY, member=True, call="sync"),
+    "unsafeexternbare": dict(src="pub(crate) unsafe extern fn a{n}(deps: %s) -> u32 {{ {n} }}" % ANY, member=True, call="unsafe"),
     "unsafeextern": dict(src="pub unsafe extern \"C\" fn a{n}(deps: %s) -> u32 {{ {n} }}" % ANY, member=True, call="unsafe"),
     "asyncextern": dict(src="pub async extern \"C\" fn a{n}(deps: %s) -> u32 {{ {n} }}" % ANY, member=True, call=None, compiles=False),
     "asyncunsafeextern": dict(src="pub async unsafe extern \"C\" fn a{n}(deps: %s) -> u32 {{ {n} }}" % ANY, member=True, call=None, compiles=False),
@@ -90,7 +93,7 @@ MOD_ITEMS = {
 MOD_ITEM_ORDER = ["pub", "priv", "crate", "struct", "super", "async", "mod", "unsafe", "foreign", "in", "macro",
                   "extern", "bodyless", "constblk", "use", "static", "trait", "const",
                   "pasync", "attrpub", "punsafe", "asyncunsafe", "pextern", "pconst",
-                  "unsafeextern", "asyncextern", "asyncunsafeextern", "constunsafe", "constextern", "constunsafeextern", "structdef"]
+                  "unsafeextern", "asyncextern", "asyncunsafeextern", "constunsafe", "constextern", "constunsafeextern", "structdef", "externbare", "unsafeexternbare"]
 # interplay alphabet for the longest words (one representative per item class)
 MOD_ITEM_CORE = ["pub", "priv", "crate", "struct", "async", "mod", "unsafe", "foreign", "macro", "bodyless", "constblk",
                  "use", "static", "trait", "structdef"]
